@@ -74,7 +74,11 @@ static void set_position(struct context_data *ctx, int pos, int dir)
 		seq = p->sequence;
 	}
 
-	if (seq == 0xff) {
+	/* Orders that belong to no sequence are marked 0xff; orders that were
+	 * only reached by a scan that found nothing to play (e.g. an end
+	 * marker at the end of the order list) carry the number of a sequence
+	 * that was never registered. */
+	if (seq == 0xff || seq >= m->num_sequences) {
 		return;
 	}
 
